@@ -263,13 +263,16 @@ func (t CollectionPath) Of(i Item) Item {
 	if IsNil(i) {
 		return nil
 	}
-	it := t.ofIRI(i.GetLink())
 	if IsItemCollection(i) {
+		// the collection of every member; nil members have none
+		var it Item
 		OnItemCollection(i, func(col *ItemCollection) error {
 			it = t.ofItemCollection(*col)
 			return nil
 		})
+		return it
 	}
+	it := t.ofIRI(i.GetLink())
 	if OfActor.Contains(t) && ActorTypes.Contains(i.GetType()) {
 		OnActor(i, func(a *Actor) error {
 			it = t.ofActor(a)
